@@ -174,8 +174,9 @@ class ModbusBinaryFramer(ModbusFramer):
                 else:
                     _logger.debug("Not a valid unit id - {}, "
                                   "ignoring!!".format(self._header['uid']))
-                    self.resetFrame()
-                    break
+                    # skip this frame only: the frames queued behind it
+                    # may well be for one of our units
+                    self.advanceFrame()
 
             else:
                 _logger.debug("Frame check failed, ignoring!!")
